@@ -51,7 +51,7 @@ for _kind in TYPES + ["struct"]:
         setup=DRV + ["d._cfg['use_instance_ids'] = use_ids",
                      f"pt = {{'plc_tag': name, 'elements': elements, 'tag_info': {_tag_info(_kind)}, 'request_id': 0}}"],
         ensures=["spec.logix_sizes.reads_fit([result], conn)", "result.request_id == 0", "result.elements == elements"],
-        props=["C04"])
+        props=["C04", "C01"])
 
 import itertools as _it
 for _n in (2, 3):
@@ -64,7 +64,7 @@ for _n in (2, 3):
             params=dict(BASE, names=P.tuple(*[P.str(**IDENT) for _ in range(_n)]), elements=P.tuple(*[P.int(1, 65535) for _ in range(_n)])),
             setup=DRV + ["d._cfg['use_instance_ids'] = use_ids", f"pts = {{{_pts}}}"],
             ensures=["spec.logix_sizes.reads_fit(result, conn)", f"sorted(spec.logix_sizes.request_ids(result)) == list(range({_n}))"],
-            props=["C04", "C03"], max_paths=20000)
+            props=["C04", "C03", "C01"], max_paths=20000)
 
 # writes (value given as bytes, so encode_value passes it through)
 for _kind in ("DINT", "struct"):
